@@ -44,3 +44,22 @@ def c17_py_header_without_clam_shell(v, case):
         return (c.get("a") == p.get("a") and c.get("ba") == p.get("ba") and c.get("delay") == p.get("delay")
                 and int(c.get("cmd", "0"), 16) == (int(p.get("cmd", "0"), 16) | 0x40))
     return False
+
+
+# ------------------------------------------------------------------------------------------------ C07
+def c07_upconverter_sel_loses_order(v, case):
+    """LiteDRAMNativePortUpConverter records the chunks of a merge window as a bit mask (`sel`) and pairs write data /
+    returns read data in *chunk* order, not command order: a window in which a chunk index does not increase (descending,
+    repeated or random addresses inside one wide word without cmd.last in between) swaps data, and a repeated chunk
+    leaves the beat counts unequal (hang).  Accepts only witnesses of the up-converter at or after the first such
+    non-increasing command of the case; class-M cases (every window strictly increasing) are never accepted."""
+    if v.get("direction") != "up":
+        return False
+    nm = v.get("first_nonmonotone_seq")
+    if nm is None:
+        return False
+    if v.get("kind") == "read-data-mismatch":
+        ws = v.get("witness_seq")
+        return ws is not None and ws >= nm - 0
+    return v.get("kind") in ("final-store-differs-from-model", "no-progress-after-final-flush", "user-read-beat-count",
+                             "user-write-beat-count", "controller-side-beat-count", "read-beat-without-pending-read")
